@@ -13,7 +13,7 @@
    holds whatever they return, except C15_histogram_mass which names its hypothesis.
    [quad p] = (count, missing, minimum, maximum) of p. *)
 From Coq Require Import List ZArith NArith Bool.
-From Orso Require Import Gen.C15_Profiler Model.C15 Proofs.C15 Proofs.C15_Text Proofs.C15_Inst.
+From Orso Require Import Gen.C15_Profiler Model.C15 Proofs.C15 Proofs.C15_Text Proofs.C15_Inst Proofs.C15_Session.
 Import ListNotations.
 Open Scope Z_scope.
 
@@ -278,6 +278,61 @@ Theorem C15_boolean_counts :
 Proof. intros E c H. split; [exact (profile_bool_mfv c H)|exact (occ_bool_total (nonnull c))]. Qed.
 Print Assumptions C15_boolean_counts.
 
+(* ---------- one frame object over time: DataFrame.append and DataFrame.profile ----------
+   [frun profile_of rows ops] runs a program of appends and .profile reads on a frame that holds
+   [rows] and returns what every read returned.  The profile is a function of the rows the frame
+   holds when it is read: after ANY history (appends and earlier reads, [ops1]) the next read
+   returns the profile of the initial rows followed by everything appended so far - never the
+   profile of an earlier state. *)
+Theorem C15_profile_reads_current_rows :
+  forall (X P : Type) (profile_of : list X -> P) rows ops1 ops2,
+  frun profile_of rows (ops1 ++ FProfile :: ops2) =
+  frun profile_of rows ops1 ++
+  profile_of (rows ++ appended ops1) :: frun profile_of (rows ++ appended ops1) ops2.
+Proof. exact frun_read. Qed.
+Print Assumptions C15_profile_reads_current_rows.
+
+(* The session the correspondence replays (a frame holding the first [pos] rows of column [c];
+   for each read position append up to it and read; append the rest and read): the reads are the
+   profiles of the prefixes and, at the end, the profile of the whole column - the same value a
+   frame built with all rows at once gives. *)
+Theorem C15_session_reads :
+  forall (X P : Type) (profile_of : list X -> P) c reads pos,
+  reads_ok pos reads (length c) ->
+  frun profile_of (firstn pos c) (session_ops pos reads (skipn pos c)) =
+  map (fun k => profile_of (firstn k c)) reads ++ [profile_of c].
+Proof. exact session_spec. Qed.
+Print Assumptions C15_session_reads.
+
+(* Numbers and instants, with from_dataframe's batching: a read after any history has count = rows
+   now, missing = nulls now, and the minimum / maximum of the rows the frame holds now; it is the
+   [reads_in ops1]-th value returned. *)
+Theorem C15_profile_after_append_numeric :
+  forall E scale hash (np_hist : list Z -> list (E * Z)),
+  0 < scale -> forall hist_merge wo rows ops1 ops2, 0 < BATCH_SIZE ->
+  let frame := profile_frame Z.eqb E hist_merge (profile_num scale hash np_hist wo) in
+  let now := rows ++ appended ops1 in
+  exists before r after,
+    frun frame rows (ops1 ++ FProfile :: ops2) = before ++ r :: after /\
+    length before = reads_in ops1 /\
+    match r with
+    | None => now = []
+    | Some p => now <> [] /\ quad p = quad (profile_num scale hash np_hist wo now) /\
+                p_count p = zlen now /\ p_missing p = zlen (filter is_none now)
+    end.
+Proof. exact num_session_read. Qed.
+Print Assumptions C15_profile_after_append_numeric.
+
+(* profile, append three rows (one null), profile again: the second read sees 7 rows, 2 nulls and
+   the new extremes -7 / 11 (the first saw 4 rows, 1 null, 3 / 5) *)
+Example C15_example_session :
+  let frame := profile_frame Z.eqb N (fun a _ => a) (profile_num 1 Z.to_N (fun d => [(0%N, zlen d)]) true) in
+  let c := [Some 3; None; Some 5; Some 4; Some (-7); None; Some 11] in
+  reads_ok 4 [4%nat] (length c) /\
+  map (option_map quad) (frun frame (firstn 4 c) (session_ops 4 [4%nat] (skipn 4 c))) =
+  [Some (4, 1, Some 3, Some 5); Some (7, 2, Some (-7), Some 11)].
+Proof. vm_compute. split; [split; repeat constructor|reflexivity]. Qed.
+
 (* ---------- non-vacuity ---------- *)
 (* the premises are satisfiable: the regenerated constants are positive, Z and text are total
    orders, a histogram oracle with the assumed behaviour exists *)
@@ -313,6 +368,17 @@ Example C15_example_text :
   quad (add text_eqb N (fun a _ => a) (prof c1) (prof c2)) = quad (prof (c1 ++ c2)) /\
   quad (prof (c1 ++ c2)) = (6, 0, Some 0, Some MAX_INT64).
 Proof. vm_compute. repeat split; discriminate || reflexivity. Qed.
+
+(* text longer than 64 characters: two 65-character values that share their first 64 characters are
+   two distinct values for the sketch (estimate 2) although the frequent values list them as one
+   64-character value with count 2 (F-C15-9) *)
+Example C15_example_long_text :
+  let x64 := repeat 120%N 64 in
+  let c := [Some (x64 ++ [97%N]); None; Some (x64 ++ [98%N])] in
+  let p := @profile_text N (fun s => last s 0%N) c in
+  estimate_cardinality p = Some 2 /\ zlen (distinct text_eqb (nonnull c)) = 2 /\
+  p_mfv p = [(x64, 2)] /\ p_count p = 3 /\ p_missing p = 1.
+Proof. vm_compute. repeat split. Qed.
 
 (* The sketch of a sum: when both batches have a non-null value and the hash function is
    injective on the values of the frame, the estimate of profile(a) + profile(b) is exact below the
